@@ -279,7 +279,25 @@ def trunc(a, w):
     if a.op == "ring" and len(a.aux) <= RING_EXPAND_LIMIT:
         return mk_ring(w, dict(a.aux))  # truncation is a ring homomorphism: the same polynomial mod 2^w
     c, e = aff_parts(a)
-    return mk_aff(w, c & mask(w), {at: _relayout(p, a.w, w, at.w) for at, p in e.items()})
+    c &= mask(w)
+    out = {}
+    for at, p in e.items():
+        p = _relayout(p, a.w, w, at.w)
+        # a ring atom of which the truncation keeps only the low k bits: the same polynomial mod 2^k (truncation is a ring
+        # homomorphism), so that a byte taken from a wide word and the same byte computed from the narrow word are one term
+        if p and at.op == "ring" and (p >> ((at.w - 1) * w)) == 0 and len(at.aux) <= RING_EXPAND_LIMIT:
+            cs = cols(p, w, at.w)
+            k = max(j for j in range(at.w) if cs[j]) + 1
+            a2 = mk_ring(k, dict(at.aux))
+            if a2.op == "const":
+                for j in range(k):
+                    if (a2.aux >> j) & 1:
+                        c ^= cs[j]
+                continue
+            if a2.w == k and a2.op != "aff":
+                at, p = a2, pack(cs[:k], w)
+        out[at] = out.get(at, 0) ^ p
+    return mk_aff(w, c, out)
 
 
 def sext(a, w):
